@@ -90,7 +90,7 @@ def replay(ctx, data):
     c = vlib.exec_ops(ctx, data.get("harness", "aggstore"), data.get("stream", "aggstore C06"), data.get("case", "replay"),
                       data["ops"], "replay")
     for t, v in c["ops"]:
-        print(f"{t}  ## {v}")
+        print(f"{vlib.strip_obs(t) if len(t) > 400 else t}  ## {v}")
     ff = vlib.first_failure(c)
     if ff or c.get("crash"):
         print(f"VIOLATION property={ctx.pid} replay={ctx.work}/replay.ops")
